@@ -81,6 +81,134 @@ def h_venn(H):
     H.lemma("venn.bin_visited_iff_level_below_max", [m >= 0, i >= 0], (m - i > 0) == (i < m), "a bin takes part in level i iff i < its maximum count")
 
 
+def replay_venn(vals, oid):
+    rng = np.random.default_rng(9)
+    bad = []
+    for ns_ in (2, 3):
+        for chunk in (3000, 7000, 100000):
+            for boundary in (False, True):
+                tot, want = native_venn(rng, ns_, chunk, boundary)
+                if tot != want:
+                    bad.append({"sorters": ns_, "chunk_size": chunk, "attributed": int(tot), "spikes": int(want)})
+    return {"failed": bool(bad), "examples": bad[:3]}
+
+
+@harness(PROPERTY, "venn_level_and_chunks", functions=["ibldsp.spiketrains:_spikes_venn"], replay=replay_venn,
+         clause="spike-coincidence counting attributes every spike of every sorter to exactly one Venn region regardless of chunking (the real peeling level and chunk selection)")
+def h_venn_code(H):
+    import ast
+    from pyvc import interp as I
+    FN = ST._spikes_venn
+    node, filename = I.SOURCES.funcdef(FN)
+    outer = [n_ for n_ in node.body if isinstance(n_, ast.For)]
+    if len(outer) != 1:
+        raise I.Unsupported("cannot identify the loop over chunks of _spikes_venn()")
+    outer = outer[0]
+    inner = [n_ for n_ in outer.body if isinstance(n_, ast.For)]
+    if len(inner) != 1:
+        raise I.Unsupported("cannot identify the loop over peeling levels of _spikes_venn()")
+    inner = inner[0]
+
+    for nsort in (2, 3):
+        # ---- one peeling level of the real inner loop on arbitrary per-bin counts
+        S = H.session(f"venn.level.{nsort}")
+
+        def level(it, nsort=nsort):
+            nb = z3.Int("nbins")
+            it.ctx.assume(nb >= 1)
+            counts = A.fresh_array("bin_counts", "int64", (nsort, nb), ranged=False)
+            A.assume_range(counts, 0, 10 ** 9)
+            pre = A.fresh_array("pre_result", "int64", (2 ** nsort - 1,), ranged=False)
+            p0 = pre.snapshot()
+            it.session.note_function(FN)
+            env = I.Env(None, FN.__globals__, qualname="_spikes_venn", filename=filename)
+            env.funcnode = node
+            env.vars.update(dict(bin_counts=counts, num_sorters=nsort))
+            it.ctx.func = env.qualname
+            # region names, running totals and bit weights as the function itself sets them up (concrete for a given number of sorters)
+            setup = [st for st in node.body if isinstance(st, ast.Assign) and isinstance(st.targets[0], ast.Name) and st.targets[0].id in ("cond_names", "pre_result", "vec")]
+            if len(setup) != 3:
+                raise I.Unsupported("cannot identify region names / running totals / bit weights in _spikes_venn()")
+            it.exec_block(setup, env)
+            names, vec_, tot0 = env.vars["cond_names"], env.vars["vec"], env.vars["pre_result"]
+            ok_names = (list(names) == [format(r_, f"0{nsort}b") for r_ in range(1, 2 ** nsort)] and isinstance(vec_, np.ndarray) and vec_.tolist() == [2 ** (nsort - 1 - j) for j in range(nsort)]
+                        and isinstance(tot0, np.ndarray) and tot0.shape == (2 ** nsort - 1,) and not tot0.any())
+            it.ctx.oblige(f"venn.regions.naming.{nsort}", z3.BoolVal(bool(ok_names)), "post",
+                          "region r is called by its binary digits, the first digit standing for sorter 1 ('100' = found by sorter 1 only): sorter j carries weight 2^(n-1-j); totals start at 0")
+            env.vars["pre_result"] = pre
+            # the two statements between the counts and the level loop (per-bin maximum, overall maximum)
+            k0 = outer.body.index(inner)
+            pre_stmts = [st for st in outer.body[:k0] if isinstance(st, ast.Assign) and isinstance(st.targets[0], ast.Name) and st.targets[0].id in ("max_per_spike", "overall_max")]
+            if len(pre_stmts) != 2:
+                raise I.Unsupported("cannot identify the per-bin maximum before the level loop of _spikes_venn()")
+            it.exec_block(pre_stmts, env)
+            mx = env.vars["max_per_spike"]
+            b = z3.Int("b")
+            it.ctx.oblige(f"venn.max_per_bin.{nsort}", z3.And(A.T(mx.shape[0]) == nb, A.forall([b], lambda: z3.Implies(z3.And(b >= 0, b < nb), z3.And(*[mx.read((b,)) >= counts.read((z3.IntVal(j), b)) for j in range(nsort)],
+                          z3.Or(*[mx.read((b,)) == counts.read((z3.IntVal(j), b)) for j in range(nsort)]))))), "post", "m(b) is the largest count of any sorter in bin b")
+            lvl = z3.Int("level")
+            it.ctx.assume(z3.And(lvl >= 0, lvl < term(env.vars["overall_max"])))
+            it.assign(inner.target, SV(lvl), env)
+            it.exec_block(list(inner.body), env)
+            wl = [q for q in it.ctx.where_log if q["ndim"] == 1]
+            uq = getattr(it.ctx, "unique_log", [])
+            if len(uq) != 1 or not wl:
+                raise I.Unsupported("cannot identify the bins of this level / the distinct region codes in _spikes_venn()")
+            w, uq = wl[0], uq[0]
+            it.ctx.oblige(f"venn.level.bins_taking_part.{nsort}", A.forall([b], lambda: z3.Implies(z3.And(b >= 0, b < nb), w["mask"]((b,)) == (mx.read((b,)) > lvl))), "post",
+                          "a bin takes part in level i iff i < its maximum count")
+            s_ = z3.Int("s")
+            code = lambda bb: z3.Sum([z3.If(counts.read((z3.IntVal(j), bb)) >= mx.read((bb,)) - lvl, z3.IntVal(2 ** (nsort - 1 - j)), z3.IntVal(0)) for j in range(nsort)])     # noqa
+            it.ctx.oblige(f"venn.level.region_code.{nsort}", z3.And(uq["n"] == w["count"], A.forall([s_], lambda: z3.Implies(z3.And(s_ >= 0, s_ < w["count"]), z3.And(uq["input"]((s_,)) == code(w["rows"](s_)), uq["input"]((s_,)) >= 1,
+                          uq["input"]((s_,)) <= 2 ** nsort - 1)))), "post", "the region of a bin at level i has bit j set iff sorter j has at least m(b) - i spikes in it; at least the sorter holding the maximum is marked", assume=False)
+            r_ = z3.Int("r")
+            present = lambda rr: z3.Exists([s_], z3.And(s_ >= 0, s_ < w["count"], code(w["rows"](s_)) == rr))     # noqa
+            g_ = z3.Int("g")
+            it.ctx.oblige(f"venn.level.only_present_regions_grow.{nsort}", A.forall([r_], lambda: z3.Implies(z3.And(r_ >= 1, r_ <= 2 ** nsort - 1),
+                          z3.And(pre.read((r_ - 1,)) >= p0((r_ - 1,)), z3.Implies(pre.read((r_ - 1,)) != p0((r_ - 1,)), present(r_))))), "post",
+                          "the running total of a region changes only if some bin of this level has that region, and never decreases", assume=False)
+            it.ctx.oblige(f"venn.level.present_regions_get_their_multiplicity.{nsort}", A.forall([g_], lambda: z3.Implies(z3.And(g_ >= 0, g_ < uq["m"]),
+                          pre.read((uq["values"](g_) - 1,)) == p0((uq["values"](g_) - 1,)) + uq["counts"](g_))), "post",
+                          "each distinct region code of this level adds its multiplicity (np.unique(..., return_counts=True): A-NP-SPEC) to its own running total", assume=False)
+        S.explore(level)
+
+    # ---- which spikes a chunk sees (one symbolic chunk of the real outer loop, up to the binning call)
+    S2 = H.session("venn.chunks")
+
+    def chunks(it):
+        n, chunk, ch = z3.Ints("nspikes chunk_size ch")
+        it.ctx.assume(z3.And(n >= 1, chunk >= 1))
+        samples = A.fresh_array("samples", "int64", (n,), ranged=False)
+        k, k2 = z3.Int(fresh_name("k")), z3.Int(fresh_name("k"))
+        it.ctx.assume(z3.ForAll([k, k2], z3.Implies(z3.And(k >= 0, k < k2, k2 < n), samples.uf(k) <= samples.uf(k2)), patterns=[z3.MultiPattern(samples.uf(k), samples.uf(k2))]))
+        it.ctx.assume(z3.ForAll([k], z3.Implies(z3.And(k >= 0, k < n), samples.uf(k) >= 0), patterns=[samples.uf(k)]))
+        env = I.Env(None, FN.__globals__, qualname="_spikes_venn", filename=filename)
+        env.funcnode = node
+        env.vars.update(dict(samples_tuple=(samples,), channels_tuple=(A.fresh_array("channels", "int64", (n,), ranged=False),), chunk_size=SV(chunk), num_sorters=1))
+        it.ctx.func = env.qualname
+        mx_st = [st for st in node.body if isinstance(st, ast.Assign) and isinstance(st.targets[0], ast.Name) and st.targets[0].id in ("max_samples", "num_chunks")]
+        if len(mx_st) != 2:
+            raise I.Unsupported("cannot identify the number of chunks in _spikes_venn()")
+        it.exec_block(mx_st, env)
+        nchunks = term(env.vars["num_chunks"])
+        it.ctx.oblige("venn.chunks.cover_the_last_spike", z3.And(nchunks >= 1, samples.read((n - 1,)) < nchunks * chunk), "post", "the chunks reach past the last spike of any sorter")
+        it.ctx.assume(z3.And(ch >= 0, ch < nchunks))
+        it.assign(outer.target, SV(ch), env)
+        sel = [st for st in outer.body if isinstance(st, ast.Assign) and isinstance(st.targets[0], ast.Name) and st.targets[0].id in ("sample_offset", "spike_indices", "samples_chunks")]
+        if len(sel) != 3:
+            raise I.Unsupported("cannot identify the selection of a chunk's spikes in _spikes_venn()")
+        it.exec_block(sel, env)
+        sl = env.vars["spike_indices"][0]
+        lo, hi = term(sl.start), term(sl.stop)
+        q = z3.Int("q")
+        it.ctx.oblige("venn.chunks.spikes_of_chunk", z3.And(lo >= 0, lo <= hi, hi <= n, A.forall([q], lambda: z3.Implies(z3.And(q >= 0, q < n), z3.And(q >= lo, q < hi) == z3.And(samples.read((q,)) >= ch * chunk, samples.read((q,)) < (ch + 1) * chunk)))), "post",
+                      "chunk ch sees exactly the spikes with ch*chunk <= sample < (ch+1)*chunk: every spike is binned in exactly one chunk, whatever the chunk size", assume=False)
+        local = env.vars["samples_chunks"][0]
+        it.ctx.oblige("venn.chunks.local_times", z3.And(A.T(local.shape[0]) == hi - lo, A.forall([q], lambda: z3.Implies(z3.And(q >= 0, q < hi - lo), z3.And(local.read((q,)) == samples.read((lo + q,)) - ch * chunk, local.read((q,)) >= 0, local.read((q,)) < chunk)))), "post",
+                      "spike times handed to the 2-D bin count are relative to the chunk start and inside [0, chunk_size)", assume=False)
+    S2.explore(chunks)
+
+
 # ----------------------------------------------------------------------------- bounded
 def native_venn(rng, nsorters, chunk, last_on_boundary):
     fs = 30000
